@@ -142,7 +142,7 @@ class HyteraIPSC:
         _ipsc.reserved_7a = ipsc.reserved_7a
         _ipsc.reserved_2a = ipsc.reserved_2a
         _ipsc.reserved_2b = ipsc.reserved_2b
-        _ipsc.reserved_1 = ipsc.reserved_1b
+        _ipsc.reserved_1 = bytes([ipsc.reserved_1b])
 
         return _ipsc
 
